@@ -58,6 +58,23 @@ let () =
     | [_; kind; h1; h2] -> obs "decreuse first=[%s] second=[%s] firstcopy=same" (decode kind (bytes_of_hex h1)) (decode kind (bytes_of_hex h2))
     | _ -> failwith "decreuse")
 
+(* reuse PRODUCER m x k s n ... | j item ... : acceptance is a function of the steps and point
+   counts of the final list alone (Layout.wf_layout_full): the history of the values is nothing *)
+let () =
+  register "reuse" (fun tk -> match tk with
+    | _ :: _prod :: m :: x :: rest ->
+      let rec split acc = function "|" :: r -> (List.rev acc, r) | t :: r -> split (t :: acc) r | [] -> failwith "reuse" in
+      let (first, recipe) = split [] rest in
+      let (l1, _) = parse_layout first in
+      let items = match recipe with _j :: its -> its | [] -> [] in
+      let final = List.map (fun it ->
+          let body = String.sub it 1 (String.length it - 1) in
+          if it.[0] = 'o' then (let (s, n) = List.nth l1 (int_of_string body) in (dec_of_z s, dec_of_z n))
+          else match String.split_on_char ':' body with [s; n] -> (s, n) | _ -> failwith "reuse item") items in
+      let toks = m :: x :: string_of_int (List.length final) :: List.concat_map (fun (s, n) -> [s; n]) final in
+      (match header_of_tokens toks with None -> obs "enc err" | Some h -> obs "enc %s" (show_header h))
+    | _ -> failwith "reuse")
+
 let () =
   register "hdr" (fun tk -> match tk with
     | [_; name] -> with_file "hdr" name (fun h -> match h_header h with
